@@ -135,6 +135,9 @@ def shards(tier):
         out.append(d)
     for blk in CONST:
         out.append({'block': blk, 'aw': 2, 'rws': [2], 'early': 1})
+    # ... and the simulator class constructed directly (Simulator(hw)) instead of hw.getSimulator()
+    for sh in [x for x in out if x.get('early')]:
+        out.append(dict({k: v for k, v in sh.items() if k != 'early'}, directsim=1, aw=3))
     for aw in range(1, (12 if T else 9) + 1):
         out.append({'block': 'CountLeadingZeros', 'aw': aw, 'rws': [1, 2, 3, 4, 5]})
     for aw in range(1, (11 if T else 8) + 1):
